@@ -459,13 +459,13 @@ def g_wbxml(r):
         else:
             b += rb(r, 2)
     x = r.random()
-    if x < 0.25:
+    if x < 0.12:
         if r.random() < 0.5:
             b = bytes([3, 1, 0x6A, 0, 0x45])
         b += b"\x03" + s(r, 0.3).encode().replace(b"\x00", b"")  # inline string cut before its terminating NUL (truncated body)
-    elif x < 0.35:
+    elif x < 0.25:
         b += b"\xc3\x20" + rb(r, 3)  # opaque data shorter than its declared length
-    elif x < 0.45:
+    elif x < 0.35:
         b += b"\x00"  # SWITCH_PAGE without page
     return b, r.choice(["application/vnd.ms-sync.wbxml", "application/vnd.wap.wbxml"]), "wbxml", "wbxml"
 
